@@ -6,6 +6,7 @@ import (
 	"go/token"
 	"go/types"
 	"os"
+	"sort"
 	"strings"
 
 	"golang.org/x/tools/go/ssa"
@@ -159,16 +160,32 @@ func checkC19(w *World, r *Report) {
 									valAppends[x] = true
 									back(x.Call.Args[0])
 								}
+							case *ssa.Extract:
+								// the list built by a helper of the package: what the helper returns there
+								if hc, ok := x.Tuple.(*ssa.Call); ok {
+									if h := hc.Call.StaticCallee(); h != nil && h.Pkg == f.Pkg && h.Blocks != nil {
+										for _, hb := range h.Blocks {
+											if ret, ok := hb.Instrs[len(hb.Instrs)-1].(*ssa.Return); ok && x.Index < len(ret.Results) {
+												back(unspill(ret.Results[x.Index]))
+											}
+										}
+									}
+								}
 							}
 						}
 						back(c.Call.Args[2])
 					}
 				}
 			}
-			for _, b := range f.Blocks {
-				for _, in := range b.Instrs {
-					c, isC := in.(*ssa.Call)
-					if !isC || !valAppends[c] || len(c.Call.Args) != 2 {
+			var appendCalls []*ssa.Call
+			for c := range valAppends {
+				appendCalls = append(appendCalls, c)
+			}
+			sort.Slice(appendCalls, func(i, j int) bool { return appendCalls[i].Pos() < appendCalls[j].Pos() })
+			for _, c := range appendCalls {
+				{
+					f, b := c.Parent(), c.Block()
+					if len(c.Call.Args) != 2 {
 						continue
 					}
 					lit, isL := c.Call.Args[1].(*ssa.Slice)
